@@ -131,7 +131,8 @@ Inductive outcome :=
 | Short (l : list row) (missing : nat)    (* fewer rows written than allocated: the rest is np.empty garbage *)
 | ErrIndex                                (* IndexError *)
 | ErrZeroDiv                              (* ZeroDivisionError: i % 0 *)
-| ErrShape.                               (* ValueError from the DataFrame constructor *)
+| ErrShape                                (* ValueError (DataFrame constructor; sequence assigned to a scalar) *)
+| ErrAttribute.                           (* AttributeError *)
 
 Definition finish (rec : list row) (store_steps : nat) : outcome :=
   if (length rec =? store_steps)%nat then Rows rec else Short rec (store_steps - length rec).
@@ -217,5 +218,6 @@ Definition outcome_eqb (a b : outcome) : bool :=
   | ErrIndex, ErrIndex => true
   | ErrZeroDiv, ErrZeroDiv => true
   | ErrShape, ErrShape => true
+  | ErrAttribute, ErrAttribute => true
   | _, _ => false
   end.
